@@ -173,7 +173,18 @@ func drawInvalidCertRef(t *rapid.T, p Prof) string {
 			base += "-" + drawDigits(t, 5, "cert.ext")
 		}
 		var s string
-		switch rapid.IntRange(0, 5).Draw(t, "cert.edit") {
+		switch rapid.IntRange(0, 7).Draw(t, "cert.edit") {
+		case 6: // right length and alphabet, dash somewhere else
+			d := drawDigits(t, 18, "cert.d18")
+			i := rapid.IntRange(0, 18).Draw(t, "cert.dash")
+			s = d[:i] + "-" + d[i:]
+		case 7: // two edits
+			b := []byte(base)
+			for k := 0; k < 2; k++ {
+				i := rapid.IntRange(0, len(b)-1).Draw(t, "cert.pos")
+				b[i] = rapid.SampledFrom(certAlphabet).Draw(t, "cert.ch")
+			}
+			s = string(b)
 		case 5: // same byte length, non-ASCII digits
 			vs := multiByteDigitVariants(base)
 			s = vs[rapid.IntRange(0, len(vs)-1).Draw(t, "cert.mb")]
